@@ -36,6 +36,13 @@ Theorem C14_koi8 :
 Proof. exact koi8_agrees. Qed.
 Print Assumptions C14_koi8.
 
+(* ... exactly, in both directions: whatever character is accepted for a byte of 0xC0-0xFF is the KOI8-R
+   character of that byte (no aliases in that range, unlike '$' / U+00A4 at 0x24) *)
+Theorem C14_koi8_exact :
+  forall c b, bk_encode_char c = Some b -> 192 <= b -> koi8r b = Some c.
+Proof. exact koi8_exact. Qed.
+Print Assumptions C14_koi8_exact.
+
 (* every code point outside the table -- no bound on c -- is refused *)
 Theorem C14_refuses_outside :
   forall c, ~ In c bk_all_chars -> bk_encode_char c = None.
